@@ -16,7 +16,7 @@ CFG_TIMEOUT_S = {"quick": 300, "thorough": 1500}
 META = dict(
     bounds=dict(
         quick="degree 0..3, <=2 distinct interior knots, every multiplicity pattern; all j<=p; index forms int, negative int, "
-              "slice, full; polynomial and rational (symbolic positive weights); u anywhere on the real line",
+              "slices (negative start / stop / step, empty, out of range), full; polynomial and rational (symbolic positive weights); u anywhere on the real line",
         thorough="degree 0..5 with <=2 interior knots (all patterns), degree <=3 with 3 interior knots (sampled)",
     ),
     assumptions=[
@@ -115,8 +115,19 @@ def body(env, cfg):
         env.eq(f"f[-1,{j}](u)", f[-1, j](u), tab[-1])
         sl = f[1:n:2, j](u)
         env.eq(f"f[1:n:2,{j}](u)", list(sl), list(tab[1:n:2]))
+        # any slice selects the rows Python's own slicing selects (negative start / stop / step, empty, out of range)
+        slices = [slice(-2, None), slice(None, -1), slice(None, None, -1), slice(None, 0), slice(-n - 3, None), slice(n, None),
+                  slice(-1, 0, -2), slice(0, n + 5, 3)]
+        for sl in (slices if j == p else slices[j % len(slices)::4]):
+            txt = f"{'' if sl.start is None else sl.start}:{'' if sl.stop is None else sl.stop}:{'' if sl.step is None else sl.step}"
+            got = f[sl, j](u)
+            env.holds(f"f[{txt},{j}](u) has the rows of the Python slice", isinstance(got, tuple) and len(got) == len(tab[sl]))
+            if isinstance(got, tuple) and len(got) == len(tab[sl]) and len(got):
+                env.eq(f"f[{txt},{j}](u)", list(got), list(tab[sl]))
         # a sequence of nodes gives one column per node
         seq = f[:, j]([u, t[0]])
         env.eq(f"f[:, {j}]([u, umin]) column 0", [row[0] for row in seq], list(tab))
     env.eq("f(u) == f[:, p](u)", list(f(u)), list(full))
     env.eq("f[i](u) == f[i, p](u)", f[n - 1](u), full[n - 1])
+    env.eq("f[-2:](u) == f[-2:, p](u)", list(f[-2:](u)), list(full[-2:]))
+    env.eq("f[::-1](u) == reversed f[:, p](u)", list(f[::-1](u)), list(full[::-1]))
